@@ -537,8 +537,17 @@ def run(w: World, rep: Report):
             # no-operand group: case body is `pass`, falls to `return (advance, tuple(args))`
             hs = {()}
             probs = []
+            def _empty_payload_return(st):
+                # `return (advance, ())` / `(advance, tuple())` / `(advance, tuple([]))`: no operand bytes
+                if not (isinstance(st, ast.Return) and isinstance(st.value, ast.Tuple) and len(st.value.elts) == 2):
+                    return False
+                p = st.value.elts[1]
+                if isinstance(p, (ast.Tuple, ast.List)) and not p.elts:
+                    return True
+                return isinstance(p, ast.Call) and isinstance(p.func, ast.Name) and p.func.id == 'tuple' and \
+                    (not p.args or (len(p.args) == 1 and isinstance(p.args[0], (ast.List, ast.Tuple)) and not p.args[0].elts))
             if not all(isinstance(s, ast.Pass) or (isinstance(s, ast.Expr) and isinstance(s.value, ast.Constant))
-                       for s in c.body):
+                       or _empty_payload_return(s) for s in c.body):
                 raise AnalysisError('get_args: operand-less case has an unrecognised body')
         else:
             if helper not in shape_cache:
